@@ -1143,48 +1143,12 @@ func rulePolarity(c *Ctx, which string) {
 			c.R.Hold("R-TABLE/env", p.Pos(f.Node()), f.Name, construct, "from the true edge of each prefix test the append is unreachable within the iteration", true)
 		}
 		// the dual: an entry reaches the plugin only after it was found not to be
-		// a reserved name - every path from the entry to an append crosses, for
-		// each reserved name, the edge on which the test for that name failed (a
-		// second way round the tests, e.g. a user-supplied filter consulted
-		// instead of them, lets the host's value through)
+		// a reserved name (see hostEnvOnlyTested)
 		for _, want := range []string{"PLUGIN_CLIENT_CERT", "PLUGIN_MULTIPLEX_GRPC"} {
-			want := want
-			notWant := func(e *Edge) bool {
-				at, ok := edgeAtom(info, e)
-				if !ok {
-					return false
-				}
-				switch at.Kind {
-				case "call":
-					call, isC := at.X.(*ast.CallExpr)
-					if !isC || at.True || p.CalleeName(f, call) != "strings.HasPrefix" || len(call.Args) != 2 {
-						return false
-					}
-					pre, isK := constString(info, call.Args[1])
-					return isK && pre == want+"="
-				case "cmp":
-					if at.Op != token.NEQ {
-						return false
-					}
-					for _, side := range []ast.Expr{at.X, at.Y} {
-						if sv, isK := constString(info, side); isK && sv == want {
-							return true
-						}
-					}
-				}
-				return false
-			}
-			seen := g.Reach([]*Node{g.Entry}, nil, notWant)
 			construct2 := "only entries tested not to be " + want + " are inherited"
-			var hit *Node
-			for _, an := range appendN {
-				if _, r := seen[an]; r {
-					hit = an
-				}
-			}
-			if hit != nil {
-				c.R.Violate("R-TABLE/env", p.Pos(hit.Ast), f.Name, construct2, "an inherited entry can be appended to the plugin's environment on a path on which it was never compared with "+want+" (another condition is consulted instead of the built-in exclusion): a host that carries the variable hands it to its plugins, which then negotiate a feature this client did not ask for", p.PathTo(seen, hit))
-			} else if len(appendN) > 0 {
+			if ok, hit := p.hostEnvOnlyTested(want); !ok && hit != nil {
+				c.R.Violate("R-TABLE/env", p.Pos(hit.Ast), f.Name, construct2, "an inherited entry can be appended to the plugin's environment on a path on which it was never compared with "+want+" (another condition is consulted instead of the built-in exclusion): a host that carries the variable hands it to its plugins, which then negotiate a feature this client did not ask for", nil)
+			} else if ok {
 				c.R.Hold("R-TABLE/env", p.Pos(f.Node()), f.Name, construct2, "every path to an append crosses the failed test for this name", true)
 			}
 		}
@@ -2856,4 +2820,66 @@ func ruleMuxerConnected(c *Ctx) {
 		c.R.Violate("R-CTOR/session", p.Pos(f.Node()), f.Name, "session initialised by the constructor",
 			"the client muxer is handed out without an established yamux session: Listener() passes the (nil) session to the blocked listeners, whose Addr()/Accept() dereference it, and a plugin that is already gone is no longer reported by Client()", nil)
 	}
+}
+
+// hostEnvOnlyTested: in hostEnv every feasible path from the entry to an
+// append crosses the edge on which the test for the variable name want failed
+// (strings.HasPrefix(kv, want+"=") false, or name != want): a second way round
+// the tests - e.g. a user-supplied filter consulted instead of them - lets the
+// host's own value through. Returns (true, nil) when that holds, (false, node)
+// with an append that can be reached untested, (false, nil) when hostEnv has no
+// append at all.
+func (p *Prog) hostEnvOnlyTested(want string) (bool, *Node) {
+	f := p.Fn("hostEnv")
+	if f == nil {
+		return false, nil
+	}
+	info := f.Pkg.TypesInfo
+	g := p.Graph(f)
+	var appendN []*Node
+	for _, m := range g.Nodes {
+		if m.Ast == nil {
+			continue
+		}
+		for _, call := range callsIn(m.Ast) {
+			if p.CalleeName(f, call) == "builtin.append" {
+				appendN = append(appendN, m)
+			}
+		}
+	}
+	if len(appendN) == 0 {
+		return false, nil
+	}
+	notWant := func(e *Edge) bool {
+		at, ok := edgeAtom(info, e)
+		if !ok {
+			return false
+		}
+		switch at.Kind {
+		case "call":
+			call, isC := at.X.(*ast.CallExpr)
+			if !isC || at.True || p.CalleeName(f, call) != "strings.HasPrefix" || len(call.Args) != 2 {
+				return false
+			}
+			pre, isK := constString(info, call.Args[1])
+			return isK && pre == want+"="
+		case "cmp":
+			if at.Op != token.NEQ {
+				return false
+			}
+			for _, side := range []ast.Expr{at.X, at.Y} {
+				if sv, isK := constString(info, side); isK && sv == want {
+					return true
+				}
+			}
+		}
+		return false
+	}
+	seen := p.FeasibleReach(f, []*Node{g.Entry}, nil, notWant)
+	for _, an := range appendN {
+		if seen[an] {
+			return false, an
+		}
+	}
+	return true, nil
 }
